@@ -2,7 +2,8 @@
 from __future__ import annotations
 
 from vlib import gen_multicore as G
-from vlib.ctx import PassTimeout, parse, run_pass, shared_ctx, time_limit, to_text
+from vlib.ctx import PassTimeout, parse, run_pass, time_limit, to_text
+from vlib.ctx_multicore import xdma_ctx
 from vlib.interp import InterpError, StepBudget, UseBeforeDef, dominance_errors
 from vlib.machine_multicore import (BARRIER_CALL, conflicts_in, core_guard_ancestors, depends_on_core_idx, preorder_index, run_core, seq_cmp,
                                     tag_of)
@@ -12,7 +13,7 @@ ID = "C13"
 RULE = (
     "Recipes are single-block functions over 1-2 shared 16-element memref arguments plus allocs and 4-element subviews of them (static "
     "and induction-variable offsets, views of views; created before or after their producers), with statements memref.copy (data mover), "
-    "linalg.generic with/without library_call / dart.operation / dart.schedule (compute core), neutral users (\"test.op\"(memref)), "
+    "linalg.generic with/without library_call / dart.operation / dart.schedule on snax_alu, snax_gemmx (empty body or kernel.add/mul/rescale; compute core), dart regions on snax_xdma (extension kernel = data mover; kernel.mul, kernel.add i8, kernel.rescale i32->i32 = compute core; snax_xdma registered in a private context), neutral users (\"test.op\"(memref)), "
     "pre-existing snax.cluster_sync_op, memref.dealloc, straight-line, inside scf.for nests up to depth 3 whose trip counts (0..3) are "
     "run-time inputs, and inside scf.if with and without else (conditions: i1 arguments taking both outcomes across the two input vectors, "
     "or comparisons on an induction variable; core-independent), nested with the loops, producers before the if and consumers in "
@@ -174,13 +175,13 @@ def races(ms, cx, stage):
 def prop(r):
     built = G.build(r)
     n = r["nb_cores"]
-    orig = parse(built.text, shared_ctx())
+    orig = parse(built.text, xdma_ctx())
     orig.verify()
     sb = orig.clone()
     before = built.text
     try:
         with time_limit(30):
-            run_pass(sb, "insert-sync-barrier")
+            run_pass(sb, "insert-sync-barrier", ctx=xdma_ctx())
     except PassTimeout:
         raise Reject("insert-sync-barrier did not terminate within 30 s")
     except Exception as e:
@@ -192,9 +193,9 @@ def prop(r):
     fin = sb.clone()
     try:
         with time_limit(30):
-            run_pass(fin, "dispatch-regions", nb_cores=n)
+            run_pass(fin, "dispatch-regions", ctx=xdma_ctx(), nb_cores=n)
             fin.verify()
-            run_pass(fin, "snax-to-func")
+            run_pass(fin, "snax-to-func", ctx=xdma_ctx())
             fin.verify()
     except PassTimeout:
         raise Reject("dispatch-regions/snax-to-func did not terminate within 30 s")
@@ -246,9 +247,8 @@ def prop(r):
         if m_all.trace != m_orig.trace:
             raise Violation("insert-sync-barrier:changed-the-program", det())
         # each core's tagged trace after dispatch equals its by-construction trace (guards agree with the generator's assignment)
-        for c in range(n):
-            if [e for e in ms_a[c].trace if e[1] not in LOWERED_AWAY] != ms_b[c].trace:
-                raise Violation("stage-B:core-runs-different-ops-than-assigned", det(core=c, final=to_text(fin)))
+        # (reported after the races of the same case, so that a missing barrier is named as such)
+        stage_b_mismatch = [c for c in range(n) if [e for e in ms_a[c].trace if e[1] not in LOWERED_AWAY] != ms_b[c].trace]
         # potential conflicts (barriers ignored) for the non-trivial rule
         for a, b in conflicts_in([m.accesses for m in ms_a], same_epoch_only=False):
             _, loop = seq_cmp((a.op, a.iters), (b.op, b.iters), cx_sb.pre)
@@ -264,6 +264,8 @@ def prop(r):
         for sig, d in rb.items():
             if sig not in ra:
                 found.setdefault("after-dispatch " + sig, (det, dict(d, final=None)))
+        if stage_b_mismatch:
+            found.setdefault("stage-B:core-runs-different-ops-than-assigned", (det, dict(core=stage_b_mismatch[0], final=None)))
     if n_exec == 0:
         raise Outside("all executions exceeded the step budget")
 
@@ -277,10 +279,12 @@ def prop(r):
                 d["final"] = fin_text
             found[sig] = mk(**d)
     plain = [(s, d) for s, d in found.items() if s not in known_order]
+    plain.sort(key=lambda x: x[0].startswith("stage-B"))  # stable: a race is named before the stage-B trace mismatch
     listed = [(s, d) for s, d in found.items() if s in known_order]
     f = built.features
     cls = [f"N:{n}", f"depth:{built.max_depth}"] + sorted(trips_cls) + [f"pot:{p}" for p in sorted(pot)]
     cls += ["straight-line" if "loop" not in f else ("nested-loop" if "nested" in f else "loop")]
+    cls += sorted(x for x in f if x.startswith("xdma_") or x.startswith("dart_kernel:"))
     for name in ("view", "view_dynamic", "dealloc", "pre_barrier", "if", "if_else", "if_in_loop", "pre_barrier_in_branch", "dispatchable_in_branch"):
         if name in f:
             cls.append(name)
